@@ -744,7 +744,113 @@ class _OperatorCalls(ast.NodeTransformer):
         return n
 
 
-def normalise(M, fn, subst: bool = False, guards: bool = False, keep=()) -> ast.FunctionDef:
+def _loops_to_comps(node: ast.FunctionDef) -> None:
+    """acc = []; for v in S: [if P:] acc.append(E) [else: other.append(F)]   ->   acc = [E for v in S if P]; other = [F for v in S if not P]
+    Accumulators are locals initialised with `[]` in the same block before the loop, appended to at exactly one place of the loop
+    and not otherwise mentioned in it; the loop contains nothing but such appends under if / elif / else (no break / continue)."""
+    for block in _blocks(node):
+        i = 0
+        while i < len(block):
+            lp = block[i]
+            if not (isinstance(lp, ast.For) and not lp.orelse and not any(isinstance(x, (ast.Break, ast.Continue, ast.Return)) for x in ast.walk(lp))):
+                i += 1
+                continue
+            sites = []       # (acc, expr, [conditions])
+            ok = True
+
+            def walk(stmts, conds):
+                nonlocal ok
+                for st in stmts:
+                    if isinstance(st, ast.Expr) and isinstance(st.value, ast.Call) and isinstance(st.value.func, ast.Attribute) and \
+                            st.value.func.attr == "append" and isinstance(st.value.func.value, ast.Name) and len(st.value.args) == 1 and \
+                            not st.value.keywords:
+                        sites.append((st.value.func.value.id, st.value.args[0], list(conds)))
+                    elif isinstance(st, ast.If):
+                        walk(st.body, conds + [st.test])
+                        neg = ast.UnaryOp(op=ast.Not(), operand=st.test)
+                        if isinstance(st.test, ast.Compare) and len(st.test.ops) == 1 and isinstance(st.test.ops[0], (ast.In, ast.NotIn, ast.Eq, ast.NotEq)):
+                            flip = {ast.In: ast.NotIn, ast.NotIn: ast.In, ast.Eq: ast.NotEq, ast.NotEq: ast.Eq}[type(st.test.ops[0])]
+                            neg = ast.Compare(left=st.test.left, ops=[flip()], comparators=st.test.comparators)
+                        walk(st.orelse, conds + [neg])
+                    elif isinstance(st, ast.Expr) and isinstance(st.value, ast.Constant):
+                        pass
+                    else:
+                        ok = False
+            walk(lp.body, [])
+            accs = [a for a, _, _ in sites]
+            if not ok or not sites or len(set(accs)) != len(accs):
+                i += 1
+                continue
+            # each accumulator: initialised with [] earlier in this block, not mentioned between init and loop, nor elsewhere in the loop
+            inits = {}
+            for a in accs:
+                for j in range(i - 1, -1, -1):
+                    st = block[j]
+                    mentions = any(isinstance(n, ast.Name) and n.id == a for n in ast.walk(st))
+                    if not mentions:
+                        continue
+                    tgt = st.targets[0] if isinstance(st, ast.Assign) and len(st.targets) == 1 else (st.target if isinstance(st, ast.AnnAssign) else None)
+                    if isinstance(tgt, ast.Name) and tgt.id == a and isinstance(getattr(st, "value", None), ast.List) and not st.value.elts:
+                        inits[a] = j
+                    break
+            uses_in_loop = {a: sum(1 for n in ast.walk(lp) if isinstance(n, ast.Name) and n.id == a) for a in accs}
+            loopvars = {n.id for n in ast.walk(lp.target) if isinstance(n, ast.Name)}
+            if set(inits) != set(accs) or any(u != 1 for u in uses_in_loop.values()) or \
+                    any(isinstance(n, ast.Name) and n.id in loopvars for s2 in block[i + 1:] for n in ast.walk(s2)):
+                i += 1
+                continue
+            new = []
+            for a, e, conds in sites:
+                comp = ast.ListComp(elt=copy.deepcopy(e), generators=[ast.comprehension(
+                    target=copy.deepcopy(lp.target), iter=copy.deepcopy(lp.iter), ifs=[copy.deepcopy(c) for c in conds], is_async=0)])
+                new.append(ast.fix_missing_locations(ast.copy_location(ast.Assign(targets=[ast.Name(id=a, ctx=ast.Store())], value=comp), lp)))
+            block[i:i + 1] = new
+            for j in sorted(inits.values(), reverse=True):
+                del block[j]
+                i -= 1
+            i += len(new)
+
+
+def loopify_return_comp(node: ast.FunctionDef, acc: str = "__acc") -> ast.FunctionDef:
+    """`return [E for a in A (if c) for b in B ...]`  ->  `acc = []; for a in A: (if c:) acc.extend([E for b in B ...]); return acc`
+    (a copy; the function is returned unchanged when its body is not a single returned list comprehension)"""
+    b = _body_wo_doc(node)
+    if not (len(b) == 1 and isinstance(b[0], ast.Return) and isinstance(b[0].value, ast.ListComp)):
+        return node
+    lc = b[0].value
+    g0 = lc.generators[0]
+    if g0.is_async:
+        return node
+    new = copy.deepcopy(node)
+    at = b[0]
+    if len(lc.generators) > 1:
+        inner = ast.ListComp(elt=copy.deepcopy(lc.elt), generators=copy.deepcopy(lc.generators[1:]))
+        emit = ast.Expr(value=ast.Call(func=ast.Attribute(value=ast.Name(id=acc, ctx=ast.Load()), attr="extend", ctx=ast.Load()),
+                                       args=[inner], keywords=[]))
+    else:
+        emit = ast.Expr(value=ast.Call(func=ast.Attribute(value=ast.Name(id=acc, ctx=ast.Load()), attr="append", ctx=ast.Load()),
+                                       args=[copy.deepcopy(lc.elt)], keywords=[]))
+    body = [emit]
+    if g0.ifs:
+        test = copy.deepcopy(g0.ifs[0]) if len(g0.ifs) == 1 else ast.BoolOp(op=ast.And(), values=copy.deepcopy(g0.ifs))
+        body = [ast.If(test=test, body=[emit], orelse=[])]
+    loop = ast.For(target=copy.deepcopy(g0.target), iter=copy.deepcopy(g0.iter), body=body, orelse=[])
+    for t in ast.walk(loop.target):
+        if isinstance(t, (ast.Name, ast.Tuple, ast.List)):
+            t.ctx = ast.Store()
+    init = ast.Assign(targets=[ast.Name(id=acc, ctx=ast.Store())], value=ast.List(elts=[], ctx=ast.Load()))
+    ret = ast.Return(value=ast.Name(id=acc, ctx=ast.Load()))
+    doc = [x for x in node.body if x not in b]
+    new.body = copy.deepcopy(doc) + [ast.copy_location(x, at) for x in (init, loop, ret)]
+    for x in new.body:
+        for y in ast.walk(x):
+            if not hasattr(y, "lineno") and isinstance(y, (ast.expr, ast.stmt)):
+                ast.copy_location(y, at)
+    ast.fix_missing_locations(new)
+    return new
+
+
+def normalise(M, fn, subst: bool = False, guards: bool = False, keep=(), comps: bool = False) -> ast.FunctionDef:
     """a normalised deep copy of fn.node (see module docstring)"""
     node = copy.deepcopy(fn.node)
     for _ in range(4):
@@ -758,6 +864,8 @@ def normalise(M, fn, subst: bool = False, guards: bool = False, keep=()) -> ast.
             break
     if guards:
         node.body = _guards_to_else(node.body)
+    if comps:
+        _loops_to_comps(node)
     if subst:
         _inline_closures(node, [])
         _split_tuple_assigns(node)
